@@ -33,7 +33,7 @@ class WorldC17(World):
     PROBES = ('insert-above-last', 'insert-equal-existing', 'insert-equal-last', 'insert-between',
               'pop-last', 'pop-middle', 'pop0-refused', 'shared-lists-edit',
               'eval-on-breakpoint', 'eval-beyond-last', 'reload-after-edit', 'single-breakpoint-effect',
-              'reload-via-hook', 'two-edits-between-evaluations', 'restore-after-edits', 'integer-slopes')
+              'reload-via-hook', 'two-edits-between-evaluations', 'restore-after-edits', 'integer-slopes', 'snapshot-copy-evaluated')
     REAL = ('pmutt.mixture.cov.PiecewiseCovEffect (all methods)', 'pmutt.io.json encoder/object hook',
             'json module')
     SIMULATED = ('1-3 clients issuing calls over a shared pool of effects (seeded scheduler)',
@@ -113,6 +113,8 @@ class WorldC17(World):
         kinds = (['insert'] * sw['w_insert'] + ['pop'] * sw['w_pop'] + ['eval'] * sw['w_eval'] +
                  ['reload'] * sw['w_reload'] + ['ckpt'] * sw.get('w_ckpt', 0))
         kind = rng.choice(kinds)
+        if kind == 'ckpt' and rng.random() < 0.4:
+            return {'c': c, 'op': 'snapshot', 'args': {'id': k, 'how': rng.choice(['deepcopy', 'pickle', 'copy'])}}
         if kind == 'ckpt':
             if k in self.ckpt and rng.random() < 0.6:
                 return {'c': c, 'op': 'restore', 'args': {'id': k}}
@@ -286,6 +288,20 @@ class WorldC17(World):
             self.lists[a['id']] = (new.intervals, new.slopes)
             self.group[a['id']] = ('r', a['id'], ctx.step)
             out = len(got)
+        elif name == 'snapshot':
+            obj = self._get(a['id'])
+            import copy as _copy
+            import pickle as _pickle
+            # a copy that never went through the constructor; it is looked at, then thrown away
+            if a['how'] == 'pickle':
+                cp = self.real(_pickle.loads, _pickle.dumps(obj), _what='pickle round trip')
+            elif a['how'] == 'copy':
+                cp = self.real(_copy.copy, obj, _what='copy.copy')
+            else:
+                cp = self.real(_copy.deepcopy, obj, _what='copy.deepcopy')
+            ctx.probe('snapshot-copy-evaluated')
+            out = self._check_function(a['id'], cp, 400.0, None, ())
+            del cp
         elif name == 'checkpoint':
             obj = self._get(a['id'])
             d = self.real(obj.to_dict, _what='to_dict')        # kept as it is, not passed through JSON text
